@@ -221,6 +221,22 @@ Qed.
 Lemma z_distinct_in_range_lemma : forall h : list aev, alloc_safe (hist_run h).
 Proof. intro h. apply inv_alloc_safe, inv_run. Qed.
 
+(** one allocator for the whole class tree *)
+Lemma z_distinct_across_classes_lemma : forall h : list aevc,
+  alloc_safe (hist_run_classes h)
+  /\ (forall h', map forget_class h' = map forget_class h -> hist_run_classes h' = hist_run_classes h).
+Proof.
+  intro h. split; [apply z_distinct_in_range_lemma|].
+  intros h' E. unfold hist_run_classes. rewrite E. reflexivity.
+Qed.
+
+(** widgets of UrwidImage (class 0), of a subclass (1) and of a sub-subclass (2) created in
+    turn get 1, -1, 2, -2: no class starts a progression of its own *)
+Example alloc_across_classes :
+  h_live (hist_run_classes [CNewOf 0 0; CNewOf 1 0; CNewOf 0 0; CNewOf 2 0])
+  = [(3%nat, -2); (2%nat, 2); (1%nat, -1); (0%nat, 1)].
+Proof. vm_compute. reflexivity. Qed.
+
 (** the progression is the documented one: 1, -1, 2, -2, 3 *)
 Example alloc_order :
   map (fun e => snd e) (h_live (hist_run [ANew 0; ANew 0; ANew 0; ANew 0; ANew 0])) = [3; -2; 2; -1; 1].
